@@ -73,6 +73,8 @@ struct Pol { using Threading = VMutexOnlyThreading; };
 using CL = eventpp::HeterCallbackList<eventpp::HeterTuple<void(uint32_t), void()>, Pol>;
 static void cl_append(CL & l, uint32_t id) { TCb cb(id); l.append([cb](uint32_t a) { cb(a); }); }
 static void cl_invoke(CL & l, uint32_t a) { l(a); }
+// the second prototype, void(): its sub-list is a separate object that copy / assignment handle after the first one
+static void cl_append2(CL & l, uint32_t id) { TCb cb(id); l.append([cb]() { cb(0x2222u); }); }
 #endif
 static void check_list(CL & l, const ListModel & m, int aid)
 {
@@ -81,11 +83,26 @@ static void check_list(CL & l, const ListModel & m, int aid)
 	vf_assert(g_tr.n == m.n, aid);
 	for(int i = 0; i < m.n && i < g_tr.n; i++) vf_assert(g_tr.e[i].id == m.ids[i] && g_tr.e[i].a == a, aid + 1);
 }
+#if CLASS == 3
+static void check_list2(CL & l, const ListModel & m2, int aid)
+{
+	g_tr.clear(); l();
+	vf_assert(g_tr.n == m2.n, aid);
+	for(int i = 0; i < m2.n && i < g_tr.n; i++) vf_assert(g_tr.e[i].id == m2.ids[i] && g_tr.e[i].a == 0x2222u, aid);
+}
+#else
+#define check_list2(l, m2, aid) ((void)0)
+#define cl_append2(l, id) ((void)0)
+#endif
 extern "C" void harness()
 {
 	CL * l = new CL(); ListModel m{};
 	int n0 = 1 + (int)vf_choose(3);             // 1..3 callbacks before the faulty operation
 	for(int i = 0; i < n0; i++) { cl_append(*l, 10u + (uint32_t)i); m.ids[m.n++] = 10u + (uint32_t)i; }
+	ListModel m2{};                             // callbacks of the second prototype (heterogeneous list only)
+#if CLASS == 3
+	{ int n2 = (int)vf_choose(3); for(int i = 0; i < n2; i++) { cl_append2(*l, 30u + (uint32_t)i); m2.ids[m2.n++] = 30u + (uint32_t)i; } }
+#endif
 	int base_cb = g_live_cb;
 	unsigned op = vf_choose(5);
 	if(op == 0) {                               // add a callback: strong guarantee
@@ -106,15 +123,18 @@ extern "C" void harness()
 		CL * c = nullptr;
 		bool failed = with_faults([&]() { c = new CL(*l); });
 		if(failed) { vf_assert(c == nullptr, 405); vf_assert(g_live_cb == base_cb, 406); if(n0 >= 3) vf_cover(COV_COPY_FAILED_LATE); }
-		else { check_list(*c, m, 407); delete c; vf_assert(g_live_cb == base_cb, 409); }
+		else { check_list(*c, m, 407); check_list2(*c, m2, 408); delete c; vf_assert(g_live_cb == base_cb, 409); }
 	}
 	else if(op == 3) {                          // copy-assign into a non-empty list: strong guarantee for the destination
-		CL * d = new CL(); ListModel dm{};
+		CL * d = new CL(); ListModel dm{}; ListModel dm2{};
 		cl_append(*d, 70u); dm.ids[dm.n++] = 70u;
+#if CLASS == 3
+		cl_append2(*d, 71u); dm2.ids[dm2.n++] = 71u;
+#endif
 		int before = g_live_cb;
 		bool failed = with_faults([&]() { *d = *l; });
-		if(failed) { check_list(*d, dm, 410); vf_assert(g_live_cb == before, 412); vf_cover(COV_STRONG_OP_FAILED); }
-		else check_list(*d, m, 413);
+		if(failed) { check_list(*d, dm, 410); check_list2(*d, dm2, 411); vf_assert(g_live_cb == before, 412); vf_cover(COV_STRONG_OP_FAILED); }
+		else { check_list(*d, m, 413); check_list2(*d, m2, 414); }
 		delete d;
 		vf_assert(g_live_cb == base_cb, 415);
 	}
@@ -122,12 +142,12 @@ extern "C" void harness()
 		CL * d = new CL(); cl_append(*d, 70u);
 		bool failed = with_faults([&]() { *d = std::move(*l); });
 		vf_assert(! failed, 416);
-		check_list(*d, m, 417);
+		check_list(*d, m, 417); check_list2(*d, m2, 418);
 		using std::swap; swap(*d, *l);
 		delete d;
 	}
 	// the object stays fully usable
-	check_list(*l, m, 420);
+	check_list(*l, m, 420); check_list2(*l, m2, 421);
 	if(m.n < MAXN) { cl_append(*l, 90u); m.ids[m.n++] = 90u; check_list(*l, m, 422); }
 	delete l;
 	vf_assert(g_live_cb == 0 && g_bad == 0, 424);
@@ -203,34 +223,51 @@ extern "C" void harness()
 
 #else
 // ----------------------------------------------------------------------------------------------- dispatcher + removers
+#ifdef FKEY
+// a user Event type whose copies and comparisons can throw (kinds 6 and 7); ordered map so that no hash is needed
+struct FKey {
+	int v; uint32_t magic;
+	explicit FKey(int x) : v(x), magic(0x4E7u) {}
+	FKey(const FKey & o) : v(o.v), magic(0x4E7u) { fault_point(6); if(o.magic != 0x4E7u) ++g_bad; }
+	FKey & operator=(const FKey & o) { fault_point(6); if(o.magic != 0x4E7u || magic != 0x4E7u) ++g_bad; v = o.v; return *this; }
+	~FKey() { if(magic != 0x4E7u) ++g_bad; magic = 0xDEADu; }
+	bool operator<(const FKey & o) const { fault_point(7); return v < o.v; }
+};
+template <typename K_, typename V_> using OrdMap = std::map<K_, V_>;
+struct Pol { using Threading = VMutexOnlyThreading; template <typename K_, typename V_> using Map = OrdMap<K_, V_>; };
+using D = eventpp::EventDispatcher<FKey, void(uint32_t), Pol>;
+#define EVK(x) FKey(x)
+#else
 struct Pol { using Threading = VMutexOnlyThreading; };
 using D = eventpp::EventDispatcher<int, void(uint32_t), Pol>;
-static int count_listeners(D & d) { int n = 0; d.forEach(1, [&](const D::Callback &) { n++; }); return n; }
+#define EVK(x) (x)
+#endif
+static int count_listeners(D & d) { int n = 0; d.forEach(EVK(1), [&](const D::Callback &) { n++; }); return n; }
 extern "C" void harness()
 {
 	D * d = new D();
 	TCb base(1);
-	D::Handle hbase = d->appendListener(1, [base](uint32_t a) { base(a); });
+	D::Handle hbase = d->appendListener(EVK(1), [base](uint32_t a) { base(a); });
 	int n = 1;
 	unsigned op = vf_choose(6);
 	unsigned how = op <= 1 ? vf_choose(3) : 0;  // registered through append / prepend / insert-before
 	if(op == 0) {                               // add a listener: strong guarantee
 		TCb cb(2);
 		bool failed = with_faults([&]() {
-			if(how == 0) d->appendListener(1, [cb](uint32_t a) { cb(a); }); else if(how == 1) d->prependListener(1, [cb](uint32_t a) { cb(a); }); else d->insertListener(1, [cb](uint32_t a) { cb(a); }, hbase); });
+			if(how == 0) d->appendListener(EVK(1), [cb](uint32_t a) { cb(a); }); else if(how == 1) d->prependListener(EVK(1), [cb](uint32_t a) { cb(a); }); else d->insertListener(EVK(1), [cb](uint32_t a) { cb(a); }, hbase); });
 		if(! failed) n++; else vf_cover(COV_STRONG_OP_FAILED);
 	}
 	else if(op == 1) {                          // add a listener of a NEW event: the map grows
 		TCb cb(2);
 		bool failed = with_faults([&]() {
-			if(how == 0) d->appendListener(2, [cb](uint32_t a) { cb(a); }); else if(how == 1) d->prependListener(2, [cb](uint32_t a) { cb(a); }); else d->insertListener(2, [cb](uint32_t a) { cb(a); }, D::Handle()); });
-		int n2 = 0; d->forEach(2, [&](const D::Callback &) { n2++; });
+			if(how == 0) d->appendListener(EVK(2), [cb](uint32_t a) { cb(a); }); else if(how == 1) d->prependListener(EVK(2), [cb](uint32_t a) { cb(a); }); else d->insertListener(EVK(2), [cb](uint32_t a) { cb(a); }, D::Handle()); });
+		int n2 = 0; d->forEach(EVK(2), [&](const D::Callback &) { n2++; });
 		vf_assert(n2 == (failed ? 0 : 1), 450);
 	}
 	else if(op == 2) {                          // through a ScopedRemover
 		eventpp::ScopedRemover<D> * r = new eventpp::ScopedRemover<D>(*d);
 		TCb cb(3);
-		bool failed = with_faults([&]() { r->appendListener(1, [cb](uint32_t a) { cb(a); }); });
+		bool failed = with_faults([&]() { r->appendListener(EVK(1), [cb](uint32_t a) { cb(a); }); });
 		vf_assert(count_listeners(*d) == n + (failed ? 0 : 1), 451);      // a failed add leaves the dispatcher exactly as it was
 		delete r;
 		vf_assert(count_listeners(*d) == n, 452);                         // and whatever was added is removed with the remover
@@ -238,26 +275,26 @@ extern "C" void harness()
 	else if(op == 3) {                          // through a CounterRemover
 		eventpp::CounterRemover<D> r(*d);
 		TCb cb(4);
-		bool failed = with_faults([&]() { r.appendListener(1, [cb](uint32_t a) { cb(a); }, 2); });
+		bool failed = with_faults([&]() { r.appendListener(EVK(1), [cb](uint32_t a) { cb(a); }, 2); });
 		vf_assert(count_listeners(*d) == n + (failed ? 0 : 1), 453);
 		if(! failed) n++;
 	}
 	else if(op == 4) {                          // through a ConditionalRemover
 		eventpp::ConditionalRemover<D> r(*d);
 		TCb cb(5);
-		bool failed = with_faults([&]() { r.appendListener(1, [cb](uint32_t a) { cb(a); }, []() { return false; }); });
+		bool failed = with_faults([&]() { r.appendListener(EVK(1), [cb](uint32_t a) { cb(a); }, []() { return false; }); });
 		vf_assert(count_listeners(*d) == n + (failed ? 0 : 1), 454);
 		if(! failed) n++;
 	}
 	else {                                      // dispatch with a throwing listener, then copy the dispatcher under faults
 		g_tr.clear();
-		with_faults([&]() { d->dispatch(1, 7u); });
+		with_faults([&]() { d->dispatch(EVK(1), 7u); });
 		D * c = nullptr;
 		bool failed = with_faults([&]() { c = new D(*d); });
 		if(! failed) { vf_assert(count_listeners(*c) == n, 455); delete c; } else vf_assert(c == nullptr, 456);
 	}
 	vf_assert(count_listeners(*d) == n, 457);
-	g_tr.clear(); d->dispatch(1, 9u);
+	g_tr.clear(); d->dispatch(EVK(1), 9u);
 	vf_assert(g_tr.n == n, 458);                 // stays fully usable
 	hbase = D::Handle();
 	delete d;
